@@ -1,2 +1,55 @@
-use crate::NativeBody;
-pub fn register(_v: &mut Vec<(&'static str, NativeBody)>) {}
+//! C03 (guard) — `contains_join` must refuse partitioning for every operator that does not
+//! distribute over a union of input partitions.
+use crate::{cover, harness, NativeBody, NativeSrc, Src};
+use inputlayer::ir::{AggregateFunction, IRExpression, IRNode, Predicate};
+use inputlayer::CodeGenerator;
+
+fn scan(name: &str) -> IRNode {
+    IRNode::Scan { relation: String::from(name), schema: vec![String::from("c0"), String::from("c1")] }
+}
+
+/// One operator of kind k (0..11, every IRNode variant but HnswScan) over the given child.
+fn wrap(k: u8, child: IRNode) -> IRNode {
+    let sch = || vec![String::from("c0"), String::from("c1")];
+    match k {
+        0 => child,
+        1 => IRNode::Map { input: Box::new(child), projection: vec![1, 0], output_schema: sch() },
+        2 => IRNode::Filter { input: Box::new(child), predicate: Predicate::ColumnGtConst(0, 1) },
+        3 => IRNode::Join { left: Box::new(child), right: Box::new(scan("s")), left_keys: vec![0], right_keys: vec![0], output_schema: sch() },
+        4 => IRNode::Distinct { input: Box::new(child) },
+        5 => IRNode::Union { inputs: vec![child, scan("s")] },
+        6 => IRNode::Aggregate { input: Box::new(child), group_by: vec![0], aggregations: vec![(AggregateFunction::Count, 1)], output_schema: sch() },
+        7 => IRNode::Antijoin { left: Box::new(child), right: Box::new(scan("s")), left_keys: vec![0], right_keys: vec![0], output_schema: sch() },
+        8 => IRNode::Compute { input: Box::new(child), expressions: vec![(String::from("x"), IRExpression::IntConstant(1))] },
+        9 => IRNode::FlatMap { input: Box::new(child), projection: vec![0], filter_predicate: None, output_schema: vec![String::from("c0")] },
+        10 => IRNode::JoinFlatMap { left: Box::new(child), right: Box::new(scan("s")), left_keys: vec![0], right_keys: vec![0], projection: vec![0], filter_predicate: None, output_schema: vec![String::from("c0")] },
+        _ => IRNode::Union { inputs: vec![scan("s"), child] },
+    }
+}
+
+/// operators whose result over the union of partitions differs from the union of per-partition results
+fn needs_colocation(k: u8) -> bool {
+    matches!(k, 3 | 6 | 7 | 10)
+}
+
+pub fn b_guard<S: Src>(s: &mut S) -> Result<(), String> {
+    let outer = s.u8();
+    let inner = s.u8();
+    s.assume(outer < 12 && inner < 12);
+    let ir = wrap(outer, wrap(inner, scan("r")));
+    let guard = CodeGenerator::verif_contains_join(&ir);
+    cover!(outer == 6 && inner == 1, "aggregate over map");
+    cover!(!guard, "some plan is partitioned");
+    let r = if (needs_colocation(outer) || needs_colocation(inner)) && !guard {
+        Err(String::from("guard lets a non-distributive operator be partitioned"))
+    } else {
+        Ok(())
+    };
+    std::mem::forget(ir);
+    r
+}
+harness!(c03_guard, b_guard, 4);
+
+pub fn register(v: &mut Vec<(&'static str, NativeBody)>) {
+    v.push(("c03_guard", b_guard::<NativeSrc>));
+}
